@@ -541,6 +541,10 @@ pub fn run_play(cfg: &WalkCfg, case: &PlayCase, st: &mut Stats) -> Result<(), St
         // with larger full-move numbers come from the builder (possible when no right is held)
         let mut big = pos.clone();
         big.full = 10_000 + ((case.aux >> 16) % 55_000) as u32;
+        if (case.aux >> 12) % 2 == 0 && big.ep.is_none() {
+            // "clock values below the 16-bit limit" holds for the half-move clock too
+            big.half = 10_000 + ((case.aux >> 32) % 55_000) as u32;
+        }
         if let Some(Ok(bb2)) = build_with_builder(&big) {
             pos = big;
             b = bb2;
